@@ -1164,19 +1164,19 @@ def compare_with_model(ctx: Ctx, batch):
 def family_cases(ctx: Ctx):
     rng = ctx.rng
     # random histories
-    n_random = ctx.scale(5000, 30000)
+    n_random = ctx.scale(5000, 20000)
     for i in range(n_random):
         yield gen_random(rng, rng.choice([1, 2, 2, 3, 4, 4, 5, 6]))
-    for i in range(ctx.scale(150, 2000)):
+    for i in range(ctx.scale(150, 1000)):
         yield gen_population(rng)
-    for i in range(ctx.scale(150, 1500)):
+    for i in range(ctx.scale(150, 1000)):
         yield gen_long(rng)
     # exhaustive small scopes (thorough) / seeded samples of them (quick)
     if ctx.thorough():
         # n = 3 beyond the racing lanes: every add order, all 6 lanes and all 6 bodies, sampled
         lanes6 = [None] + LANES
         bodies6 = [None, "next", "self", "fresh", "readd", "clear_readd"]
-        for _ in range(20000):
+        for _ in range(10000):
             yield lanes_case(3, rng.random() < 0.5, tuple(rng.choice(lanes6) for _ in range(3)),
                              rng.choice([None] + [(g, ln) for g in ("clear", "shutdown") for ln in LANES]),
                              tuple(rng.choice(bodies6) for _ in range(3)), rng.random() < 0.3,
@@ -1245,7 +1245,7 @@ def run(ctx: Ctx):
         "(none, pop neighbour, pop self, add fresh, re-add self, clear+re-add self), shared/distinct identity, n=2 also "
         "staggered; lanes n=3,4 x 3 racing lanes (at1,hop1,hop2) x 3 bodies (none, pop neighbour, re-add self), n=3 also "
         "in all 6 add orders; sequences: every op sequence up to length 5 over 6 ops x {t=0, at the deadline}, up to "
-        "length 4 with unequal delays.  SAMPLED (not exhaustive): n=3 with all lanes/bodies/add orders (20000 draws); "
+        "length 4 with unequal delays.  SAMPLED (not exhaustive): n=3 with all lanes/bodies/add orders (10000 draws); "
         "which of the n! same-instant expiry orders occurs is whatever the loop's heap yields for the given add order") \
         if ctx.thorough() else (
         "COMPLETE: lanes n=1; sequences up to length 3.  SAMPLED: lanes n=2 (1500 draws), n=3 (500), n=4 (300) over all "
